@@ -30,11 +30,18 @@ def _report_state(ctx, R, sa, label, what, exempt=()):
                 rec.update(ok=False, why=why, node=an, chain=chain, q=f.qname,
                            path=[f"L{x.line}: {x.text()[:80]}" for x in sa.witness if x.stmt is not None][:14])
             rec["bad"].append(f"{f.short}: {node.text()[:60]}")
+    dyn = getattr(sa, "dynamic_writes", [])
     for a, rec in sorted(per_attr.items()):
+        if not rec["ok"] and dyn:
+            # attributes are also written through computed names (setattr / __dict__): which reads are preceded by a write cannot be decided
+            ctx.ob(R, sa.cls.qname, f"{label}: self.{a} carries no state from one call to the next", False, "", rec["node"])
+            continue
         ctx.ob(R, sa.cls.qname, f"{label}: self.{a} carries no state from one call to the next", rec["ok"],
                (f"{rec['why']}. Reads not preceded by a write in the same call: {sorted(set(rec['bad']))[:4]}; the result of {what} "
                 f"therefore depends on earlier calls (entry chain {' -> '.join(rec['chain'])})") if not rec["ok"] else "justified (J1/J2/guard read)",
                rec["node"], path=rec["path"])
+    if dyn:
+        ctx.note(f"{R}: {label}: attributes are written through computed names at {[(f_.short, c_.lineno) for f_, c_ in dyn][:3]}")
     return n
 
 
@@ -412,7 +419,43 @@ def rule_g(ctx):
     ctx.floor(R, 5)
 
 
+def rule_h(ctx):
+    R = "C16.h"
+    ctx.rule(R, "objects held in solver attributes are not modified in place during a call: in the __call__ closure of every Solver subclass "
+             "and of AndersonAcceleration, no in-place operator / element store / mutator method acts on a local name or expression that "
+             "aliases an attribute of self (effect summaries; `w = self.coeff; w /= h**2` changes what the next call starts from, while "
+             "the attribute itself is never re-bound and the hidden-state analysis therefore sees no write)")
+    from ..effects import Effects, base_name
+
+    m = ctx.model
+    E = Effects(m)
+    n_f = 0
+    for modname, cname in list(SOLVERS) + [(AND, "AndersonAcceleration")]:
+        k = m.cls(modname, cname)
+        sa = StateAnalysis(m, k, ["__call__"])
+        ctx.instance(R)
+        bad = []
+        for f in sa.closure:
+            n_f += 1
+            if not f.params:
+                continue
+            for e in E.events_on(f, f.params[0]):
+                if e.kind in ("callee", "store"):
+                    continue  # callees are visited themselves; stores are attribute writes the hidden-state analysis accounts for
+                n = e.node
+                tgt = n.target if isinstance(n, ast.AugAssign) else (n.targets[0] if isinstance(n, ast.Assign) else (n.func.value if isinstance(n, ast.Call) and isinstance(n.func, ast.Attribute) else None))
+                b = base_name(tgt) if tgt is not None else None
+                if isinstance(b, ast.Name) and b.id != f.params[0]:
+                    bad.append((f, e))
+        ctx.ob(R, k.qname, f"{cname}: no attribute object is modified in place through an alias during a call", not bad,
+               "; ".join(f"{f.short} L{getattr(e.node, 'lineno', 0)}: `{e.via[:60]}` ({e.kind})" for f, e in bad[:3]) + " -- the attribute keeps the modified object: a second call starts from different coefficients / history",
+               bad[0][1].node if bad else k.node, evidence=True)
+    ctx.stat("closure_functions_scanned", n_f)
+    ctx.floor(R, 4)
+
+
 def run(ctx):
+    rule_h(ctx)
     rule_a(ctx)
     rule_b(ctx)
     rule_c(ctx)
